@@ -1,4 +1,223 @@
-import PysamlModel.Model.Sp
-import PysamlModel.Spec.Sp
+/-
+  C06 — Responses are accepted only as successful answers to outstanding requests.
+-/
+import PysamlModel.Proofs.Sp
+import PysamlModel.Props.C04
+import PysamlModel.Gen.StatusCodes
+
 namespace C06
+open Sp
+
+theorem scanSc_false {irp : Option String} :
+    ∀ {confs : List SubjConf}, scanSc irp confs = false →
+      ∀ sc ∈ confs, ∀ d, sc.data = some d → d.irt = irp
+  | [], _ => by intro sc hsc; cases hsc
+  | sc0 :: rest, h => by
+    intro sc hsc d hd
+    unfold scanSc at h
+    rcases List.mem_cons.mp hsc with rfl | hmem
+    · rw [hd] at h
+      simp only at h
+      split at h
+      · cases h
+      next hne => simpa using hne
+    · split at h
+      · exact scanSc_false h sc hmem d hd
+      · split at h
+        · cases h
+        · exact scanSc_false h sc hmem d hd
+
+theorem scanAssertions_false {irp : Option String} :
+    ∀ {as : List Assertion}, scanAssertions irp as = false → (∀ a ∈ as, a.subject.isSome = true) →
+      ∀ a ∈ as, ∀ s, a.subject = some s → scanSc irp s.confs = false
+  | [], _, _ => by intro a ha; cases ha
+  | a0 :: rest, h, hall => by
+    intro a ha s hs
+    unfold scanAssertions at h
+    have h0 := hall a0 (List.mem_cons_self ..)
+    cases hs0 : a0.subject with
+    | none => simp [hs0] at h0
+    | some s0 =>
+      rw [hs0] at h
+      simp only at h
+      split at h
+      · cases h
+      next hsc =>
+        rcases List.mem_cons.mp ha with rfl | hmem
+        · rw [hs0] at hs; cases hs; simpa using hsc
+        · exact scanAssertions_false h (fun b hb => hall b (List.mem_cons_of_mem _ hb)) a hmem s hs
+
+/-- Correlation: over a browser binding and unless unsolicited responses are allowed, identity is
+    produced only when the Response's InResponseTo is outstanding, the request context handed back
+    is the one stored under it, and every subject confirmation (of plain and of decrypted
+    assertions) carries the same InResponseTo — for outstanding sets of any size. -/
+theorem C06_correlated {cfg : Cfg} {env : Env} {r : Response} {o : Reported}
+    (h : process cfg env r = .identity o) (hasync : env.asynchop = true) (huns : cfg.allowUnsolicited = false) :
+    ∃ i cf, r.inResponseTo = some i ∧ env.outstanding.lookup i = some cf ∧ o.cameFrom = some cf ∧
+      ∀ a ∈ visible r, ∀ s, a.subject = some s → ∀ sc ∈ s.confs, ∀ d, sc.data = some d → d.irt = some i := by
+  obtain ⟨_, cf0, respSigned, rs, p, _, hp1, _, hv, _, _, _, a0, rest, s0, srest, _, _, ho⟩ := process_identity_inv h
+  obtain ⟨req, hl, _, _⟩ := pass1_ok_inv hp1
+  obtain ⟨_, _, hcorr⟩ := loads_ok_inv hl
+  rcases hcorr hasync with ⟨c, hc, hcf, hscan⟩ | ⟨_, hu, _⟩
+  · -- InResponseTo is outstanding
+    cases hi : r.inResponseTo with
+    | none => simp [hi] at hc
+    | some i =>
+      rw [hi] at hc
+      simp only [Option.bind_some] at hc
+      subst hcf
+      obtain ⟨_, hpa⟩ := verify_some_inv hv
+      obtain ⟨⟨st1, h1, h2⟩, _, hscan2, _, _, _⟩ := parseAssertion_inv hpa
+      have hcf1 : st1.cameFrom = some c := checkAll_cameFrom (cf := c) rfl h1
+      have hcf2 : p.st.cameFrom = some c := checkAll_cameFrom hcf1 h2
+      refine ⟨i, c, rfl, hc, by rw [ho]; exact hcf2, ?_⟩
+      -- every visible assertion has a subject (it passed get_subject)
+      obtain ⟨rs', hacc⟩ := C04.visible_accepted h
+      have hsubj : ∀ a ∈ visible r, a.subject.isSome = true := by
+        intro a ha
+        obtain ⟨v, s, s', hs⟩ := hacc a ha
+        obtain ⟨_, _, _, _, _, e3, _⟩ := checkAssertion_inv hs
+        obtain ⟨sb, hsb, _⟩ := getSubject_facts e3
+        simp [hsb]
+      have hscan2' : scanAssertions r.inResponseTo (decOf r) = false := by
+        rw [hi] at hscan2
+        simp only [hasync, Option.bind_some, hc, Option.isSome_some, Bool.and_self, Bool.true_and] at hscan2
+        rw [hi]; exact hscan2
+      intro a ha s hs sc hsc d hd
+      unfold visible at ha hsubj
+      rw [← hi]
+      rcases List.mem_append.mp ha with hdec | hpl
+      · have := scanAssertions_false hscan2' (fun b hb => hsubj b (List.mem_append_left _ hb)) a hdec s hs
+        exact scanSc_false this sc hsc d hd
+      · have := scanAssertions_false hscan (fun b hb => hsubj b (List.mem_append_right _ hb)) a hpl s hs
+        exact scanSc_false this sc hsc d hd
+  · rw [huns] at hu; cases hu
+
+/-- Status, version and shape: identity ⇒ top-level status Success, version 2.0, at least one
+    visible assertion, each with exactly one AuthnStatement and a Subject. -/
+theorem C06_shape {cfg : Cfg} {env : Env} {r : Response} {o : Reported}
+    (h : process cfg env r = .identity o) : shapeOk r = true := by
+  obtain ⟨_, cf, _, rs, p, _, _, _, hv, _, _, _, a0, rest, s0, srest, hused, _, _⟩ := process_identity_inv h
+  obtain ⟨henv, hpa⟩ := verify_some_inv hv
+  obtain ⟨hver, _, _, hstat⟩ := verifyEnvelope_true_inv henv
+  obtain ⟨_, _, _, hu, _, _⟩ := parseAssertion_inv hpa
+  unfold shapeOk
+  simp only [Bool.and_eq_true, hstat, hver, beq_self_eq_true, true_and]
+  refine ⟨?_, ?_⟩
+  · unfold visible; rw [← hu, hused]; rfl
+  · apply List.all_eq_true.mpr
+    intro a ha
+    obtain ⟨rs', hacc⟩ := C04.visible_accepted h
+    obtain ⟨v, s, s', hs⟩ := hacc a ha
+    obtain ⟨hA, _, _, _, _, e3, _⟩ := checkAssertion_inv hs
+    obtain ⟨sb, hsb, _⟩ := getSubject_facts e3
+    obtain ⟨s1, hs1, _⟩ := hA.authn
+    simp [hs1, hsb]
+
+theorem C06_status {cfg : Cfg} {env : Env} {r : Response} {o : Reported}
+    (h : process cfg env r = .identity o) : r.statusTop = "urn:oasis:names:tc:SAML:2.0:status:Success" := by
+  have := C06_shape h
+  unfold shapeOk at this
+  simp only [Bool.and_eq_true, beq_iff_eq] at this
+  exact this.1.1.1
+
+theorem C06_version {cfg : Cfg} {env : Env} {r : Response} {o : Reported}
+    (h : process cfg env r = .identity o) : r.version = "2.0" := by
+  have := C06_shape h
+  unfold shapeOk at this
+  simp only [Bool.and_eq_true, beq_iff_eq] at this
+  exact this.1.1.2
+
+/-- The model's outcome always satisfies the decidable specification. -/
+theorem C06_model_meets_spec (cfg : Cfg) (env : Env) (r : Response) :
+    specC06 cfg env r (process cfg env r) = true := by
+  unfold specC06
+  cases hres : process cfg env r with
+  | noIdentity => rfl
+  | rejected e => rfl
+  | identity o =>
+    simp only [Bool.and_eq_true]
+    refine ⟨C06_shape hres, ?_⟩
+    unfold correlated
+    cases ha : env.asynchop with
+    | false => simp
+    | true =>
+      cases hu : cfg.allowUnsolicited with
+      | true => simp
+      | false =>
+        obtain ⟨i, cf, hi, hlk, hcf, hall⟩ := C06_correlated hres ha hu
+        simp only [Bool.not_true, Bool.false_or, hi, Option.bind_some, hlk, hcf, beq_self_eq_true, Bool.true_and]
+        apply List.all_eq_true.mpr
+        intro a haa
+        simp only [Bool.not_true, Bool.and_false, Bool.false_or]
+        unfold scIrtsEqual
+        cases hs : a.subject with
+        | none => rfl
+        | some s =>
+          simp only
+          apply List.all_eq_true.mpr
+          intro sc hsc
+          cases hd : sc.data with
+          | none => rfl
+          | some d =>
+            simp only [hi]
+            have := hall a haa s hs sc hsc d hd
+            simp [this]
+
+/-! ### the regenerated status-code table -/
+
+open Gen.StatusCodes in
+/-- CamelCase of a constant name: `STATUS_AUTHN_FAILED` ↦ `StatusAuthnFailed` (on ASCII codes). -/
+def camel : List Nat → Bool → List Nat
+  | [], _ => []
+  | c :: rest, up =>
+    if c = 95 then camel rest true                      -- '_'
+    else (if up then c else (if 65 ≤ c ∧ c ≤ 90 then c + 32 else c)) :: camel rest false
+
+def isTopOnly (name : List Nat) : Bool :=
+  name == [83,84,65,84,85,83,95,83,85,67,67,69,83,83]            -- "STATUS_SUCCESS"
+  || name == [83,84,65,84,85,83,95,82,69,81,85,69,83,84,69,82]   -- "STATUS_REQUESTER"
+
+/-- Every `samlp.STATUS_*` constant other than Success/Requester has a table entry for its URI. -/
+theorem C06_table_complete :
+    Gen.StatusCodes.constantCodes.all (fun c => isTopOnly c.1 ||
+      Gen.StatusCodes.tableCodes.any (fun row => row.1 == c.1 && row.2.1 == c.2)) = true := by decide
+
+/-- Each entry's exception class is the one named after the constant, and derives from StatusError. -/
+theorem C06_table_names :
+    Gen.StatusCodes.tableCodes.all (fun row => row.2.2.1 == camel row.1 true && row.2.2.2) = true := by decide
+
+/-- No URI occurs twice (the table is a function). -/
+theorem C06_table_functional :
+    Gen.StatusCodes.tableCodes.all (fun row =>
+      (Gen.StatusCodes.tableCodes.filter (fun row' => row'.2.1 == row.2.1)).length == 1) = true := by decide
+
+/-- The property speaks of 21 defined second-level codes. -/
+theorem C06_table_size : Gen.StatusCodes.tableCodes.length = 21 ∧ Gen.StatusCodes.table.length = 21 := by decide
+
+/-- The `String` table used by the driver and the code table used by the lemmas are the same data. -/
+theorem C06_table_views_agree :
+    Gen.StatusCodes.table.map (fun row => (row.1.toList.map Char.toNat, row.2.1.toList.map Char.toNat,
+        row.2.2.1.toList.map Char.toNat, row.2.2.2)) = Gen.StatusCodes.tableCodes := by decide
+
+/-! Non-vacuity -/
+private def okAssertion : Assertion :=
+  { conditions := some { nooa := some 200, audiences := [["me"]] },
+    authn := [{ sessionIndex := some "s" }],
+    subject := some { nameId := some "n", confs := [{ method := .bearer, data := some { nooa := some 200, recipient := some "u", irt := some "r1" } }] } }
+private def okResp : Response :=
+  { sig := .valid, issueInstant := 100, destination := some "u", inResponseTo := some "r1", assertions := [okAssertion] }
+private def okCfg : Cfg := { entityId := "me", returnAddrs := ["u"] }
+private def okEnv : Env := { now := 100, outstanding := [("r0", "/w"), ("r1", "/x")] }
+
+example : (process okCfg okEnv okResp).isIdentity = true := by decide
+example : process okCfg okEnv { okResp with inResponseTo := some "r9" } = .rejected .unsolicited := by decide
+example : process okCfg okEnv { okResp with inResponseTo := some "r0" } = .rejected .unsolicited := by decide
+private def failedResp : Response :=
+  { okResp with statusTop := "urn:oasis:names:tc:SAML:2.0:status:Responder", statusSecond := some "urn:oasis:names:tc:SAML:2.0:status:AuthnFailed" }
+example : process okCfg okEnv failedResp = .rejected (.status (some "urn:oasis:names:tc:SAML:2.0:status:AuthnFailed")) := by decide
+private def encOtherIrt : Assertion :=
+  { okAssertion with encrypted := true, subject := some { nameId := some "n", confs := [{ method := .bearer, data := some { nooa := some 200, recipient := some "u", irt := some "r0" } }] } }
+example : process okCfg okEnv { okResp with assertions := [encOtherIrt] } = .rejected .unsolicited := by decide
+
 end C06
